@@ -2,6 +2,7 @@ import ChythonModel.Py.Wire
 import ChythonModel.Model.Iso
 import ChythonModel.Model.IsoCheck
 import ChythonModel.Model.IsoCompat
+import ChythonModel.Model.IsoStereo
 /-!
 Line-protocol driver for C07. One request per line, all arguments are ints.
 
@@ -15,6 +16,10 @@ Line-protocol driver for C07. One request per line, all arguments are ints.
   LP <k> (<n> <x…>)*                       → `lazy_product`: tuples in yield order
   PM <r> <n> <x…>                          → `itertools.permutations`
   OP <lenSelf> <lenOther> <n> <n'>         → operators from mapping counts: `ok sub eq le lt ge gt`
+  GS <GA arguments> <qmarks> <tlabels>     → `QueryIsomorphism.get_mapping(_cython=False)` incl. the stereo post-filter:
+                                             `ok … n=<k> : m | …` or `raise <PyErr>`; `pre=<k>` = mappings before the post-filter
+  FM <lenSelf> <lenOther> L(so) L(oo) <eq> → `get_fast_mapping`: `ok none` | `ok some : m`
+  MS <af> <k> (<hasfm> [np (u x)^np] na (np (u x)^np)^na)^k → `match_stereo=True` branch of `MoleculeIsomorphism.get_mapping`
 
 graph  := n (id deg nbr*)^n
 scope  := -1 | k id^k
@@ -28,6 +33,11 @@ patoms := for each pattern atom in order:  0 z iso(-1) charge radical           
 tatoms := for each target atom in order: z iso(-1) charge radical neighbors hybridization L(ring_sizes) implH(-1) heteroatoms
 pbattr := nb (u v 0 order | u v 1 L(orders) in_ring(-1|0|1))^nb
 tbattr := nb (x y order in_ring(0|1))^nb
+qmarks := for each pattern atom in order: mark(-1|0|1); then nm (u v mark)^nm                (marked query bonds)
+tlabels := for each target atom in order: stereo(-1|0|1) isH(0|1); nb (x y stereo)^nb;
+           k (n L(order))^k  [stereogenic_tetrahedrons];  k (c n0 n1 n2|-1 n3|-1 t1 t2)^k  [stereogenic_allenes + terminals];
+           k (a b n0 n1 n2|-1 n3|-1)^k  [stereogenic_cis_trans];  k (n a b)^k  [_stereo_cis_trans_terminals];
+           k (n i j)^k  [_stereo_cis_trans_centers]
 -/
 open ChythonModel.Py ChythonModel.Model.Iso ChythonModel.Model.Query
 
@@ -92,7 +102,7 @@ def run (p : P String) (xs : List Int) : String :=
   | some (_, _) => "malformed trailing"
   | none => "malformed"
 
-def solve (p : Problem) : String :=
+def flagsOf (p : Problem) : String :=
   let chk := match compileQuery p.q with
     | some (comps, cl) => checkCompiled p.q comps cl
     | none => false
@@ -104,9 +114,12 @@ def solve (p : Problem) : String :=
         let e := mkEnv p cl lq (restrict p.scope cand)
         getMapping e == some (recMapping e)
     | none => false
+  s!"rec={b01 recAgree} chk={b01 chk} tchk={b01 tchk}"
+
+def solve (p : Problem) : String :=
   match isoGetMapping p with
-  | none => s!"crash rec={b01 recAgree} chk={b01 chk}"
-  | some r => s!"ok rec={b01 recAgree} chk={b01 chk} tchk={b01 tchk} n={r.length} : {showDicts r}"
+  | none => s!"crash {flagsOf p}"
+  | some r => s!"ok {flagsOf p} n={r.length} : {showDicts r}"
 
 def handleGM : P String := do
   let af ← pNat
@@ -162,7 +175,7 @@ def pTBondAttr : P ((Nat × Nat) × MBond) := do
   let x ← pNat; let y ← pNat; let o ← pNat; let r ← pNat
   pure (normPair x y, { order := o, inRing := r != 0 })
 
-def handleGA : P String := do
+def pGAProblem : P (Option Problem × List (Nat × MAtom)) := do
   let af ← pNat
   let scope ← pScope
   let q ← pGraph
@@ -175,16 +188,91 @@ def handleGA : P String := do
   let pb ← pMany npb pPBondAttr
   let ntb ← pNat
   let tb ← pMany ntb pTBondAttr
-  if !(q.WF && t.WF) then return "malformed not-wf"
   let ptbl := q.atoms.zip pas
   let ttbl := t.atoms.zip tas
+  if !(q.WF && t.WF) then return (none, ttbl)
   let atomOk := fun u x => match ptbl.lookup u, ttbl.lookup x with
     | some a, some b => pAtomEq a b
     | _, _ => false
   let bondOk := fun u v x y => match pb.lookup (normPair u v), tb.lookup (normPair x y) with
     | some a, some b => pBondEq a b
     | _, _ => false
-  return solve { q := q, t := t, tComps := tComps, scope := scope, autoFilter := af != 0, atomOk := atomOk, bondOk := bondOk }
+  return (some { q := q, t := t, tComps := tComps, scope := scope, autoFilter := af != 0, atomOk := atomOk, bondOk := bondOk }, ttbl)
+
+def handleGA : P String := do
+  match (← pGAProblem).1 with
+  | none => return "malformed not-wf"
+  | some p => return solve p
+
+def pTri : P (Option Bool) := do let x ← pInt; pure (if x < 0 then none else some (x != 0))
+
+open ChythonModel.Model.Stereo in
+def pEnds : P Ends := do
+  let n0 ← pNat; let n1 ← pNat; let n2 ← pOptNat; let n3 ← pOptNat
+  pure ⟨n0, n1, n2, n3⟩
+
+def handleGS : P String := do
+  let (p?, _) ← pGAProblem
+  match p? with
+  | none => return "malformed not-wf"
+  | some p =>
+    let amarks ← pMany p.q.atoms.length pTri
+    let nbm ← pNat
+    let bmarks ← pMany nbm (do let u ← pNat; let v ← pNat; let m ← pTri; pure (normPair u v, m))
+    let tst ← pMany p.t.atoms.length (do let s ← pTri; let h ← pNat; pure (s, h != 0))
+    let ntb ← pNat
+    let tbs ← pMany ntb (do let x ← pNat; let y ← pNat; let s ← pTri; pure (normPair x y, s))
+    let kt ← pNat
+    let tetra ← pMany kt (do let n ← pNat; let o ← pList; pure (n, o))
+    let ka ← pNat
+    let al ← pMany ka (do let c ← pNat; let e ← pEnds; let t1 ← pNat; let t2 ← pNat; pure (c, e, t1, t2))
+    let kc ← pNat
+    let ct ← pMany kc (do let a ← pNat; let b ← pNat; let e ← pEnds; pure ((a, b), e))
+    let kx ← pNat
+    let ctTerm ← pMany kx (do let n ← pNat; let a ← pNat; let b ← pNat; pure (n, a, b))
+    let ky ← pNat
+    let ctCenter ← pMany ky (do let n ← pNat; let i ← pNat; let j ← pNat; pure (n, i, j))
+    let atbl := p.q.atoms.zip amarks
+    let ttbl := p.t.atoms.zip tst
+    let qm : QMarks := { atom := fun u => (atbl.lookup u).join,
+                         bond := fun u v => (bmarks.lookup (normPair u v)).join }
+    let tl : TLabels := { atom := fun x => ((ttbl.lookup x).map (·.1)).join,
+                          bond := fun x y => tbs.lookup (normPair x y),
+                          tetra := tetra,
+                          allenes := al.map fun (c, e, _, _) => (c, e),
+                          alleneTerm := al.map fun (c, _, t1, t2) => (c, t1, t2),
+                          cisTrans := ct, ctTerm := ctTerm, ctCenter := ctCenter,
+                          isH := fun x => match ttbl.lookup x with | some (_, h) => h | none => false }
+    let pre := match isoGetMapping p with | some r => r.length | none => 0
+    match queryGetMapping p qm tl with
+    | none => return s!"crash {flagsOf p}"
+    | some (.error e) => return s!"raise {e.name} {flagsOf p} pre={pre}"
+    | some (.ok r) => return s!"ok {flagsOf p} pre={pre} n={r.length} : {showDicts r}"
+
+def pDict : P Dict := do
+  let n ← pNat
+  pMany n (do let u ← pNat; let x ← pNat; pure (u, x))
+
+def handleFM : P String := do
+  let a ← pNat; let b ← pNat
+  let so ← pList; let oo ← pList
+  let eq ← pNat
+  match getFastMapping a b so oo (eq != 0) with
+  | none => return "ok none"
+  | some d => return s!"ok some n=1 : {showDict d}"
+
+def handleMS : P String := do
+  let af ← pNat
+  let k ← pNat
+  let items ← pMany k (do
+    let has ← pNat
+    let fm ← (if has != 0 then do let d ← pDict; pure (some d) else pure none : P (Option Dict))
+    let na ← pNat
+    let autos ← pMany na pDict
+    pure (fm, autos))
+  match matchStereo (af != 0) items with
+  | none => return "crash"
+  | some r => return s!"ok n={r.length} : {showDicts r}"
 
 def handleAM : P String := do
   let g ← pGraph
@@ -240,6 +328,9 @@ def handle (line : String) : String :=
           return s!"ok {b01 (checkCompiled g comps cl)}") xs
       | "GM" => run handleGM xs
       | "GA" => run handleGA xs
+      | "GS" => run handleGS xs
+      | "FM" => run handleFM xs
+      | "MS" => run handleMS xs
       | "AM" => run handleAM xs
       | "LP" => run handleLP xs
       | "PM" => run handlePM xs
